@@ -16,7 +16,7 @@ import re
 from fractions import Fraction
 
 from harness import common as C
-from harness import fw
+from harness import fw, progen
 from harness import pyast_wire as W
 from harness import pysem_check as PS
 
@@ -61,7 +61,7 @@ def py_env(env):
 # ------------------------------------------------------------------ typed generator
 INT_LITS = [0, 1, 2, 3, 5, 7, 10, 100, 255, 256, 1000]
 FLOAT_LITS = ["0.5", "1.5", "2.5", "0.25", "3.0", "100.0", "7.75", "0.0", "2.0"]
-STR_LITS = ['"a"', '"ab"', '""', '"12"', '"x y"', '"-3"', '"q\\"r"']
+STR_LITS = ['"a"', '"ab"', '""', '"12"', '"x y"', '"-3"', '"q\\"r"', '"a#b"']      # "a#b": a '#' inside a literal is not a comment
 NUM_LITS = ['"12"', '"13"', '"-3"', '" 7 "', '"0"', '"+41"', '"2147483647"']
 CMP = ["==", "!=", "<", "<=", ">", ">="]
 
@@ -308,8 +308,24 @@ DIV_ENVS = [(-7, 2), (-7, -2), (7, -2), (7, 2), (-8, 4), (8, -4), (-1, 3), (1, -
 
 
 # ------------------------------------------------------------------ scripts
-def build_script(groups):
-    """groups: [((ra, rb), [(case_id, expr_src)])] -> (script, input text)"""
+def build_script(groups, noise=None):
+    """groups: [((ra, rb), [(case_id, expr_src)])] -> (script, input text); noise: a progen.Noise - comment-only lines (column 0
+    and deeper), blank lines and trailing comments / blanks around the statement lines (CPython ignores them)"""
+    s, inp = _build_script(groups)
+    if noise is not None:
+        out = []
+        for l in s.split("\n"):
+            if l.strip():
+                out.extend(j[:-1] for j in noise.junk(0, 4, False, False))
+                l += noise.trail(False)
+            out.append(l)
+        t = "\n".join(out)
+        if progen.same_python(t, s):
+            s = t
+    return s, inp
+
+
+def _build_script(groups):
     lines = [HEADER]
     ra, rb = [], []
     for (va, vb), cases in groups:
@@ -531,6 +547,7 @@ def run_unit(ctx: C.Ctx):
         cgroups.append(cgroups[-1][:1] + ([],))
     groups = cgroups + groups
     scripts, meta = [], []
+    nz = progen.Noise(random.Random(f"{UNIT}:layout-noise:{ctx.seed}"), p_line=0.2, p_trail=0.3)
     cid = 0
     for i in range(0, len(groups), groups_per_sketch):
         gs = []
@@ -542,7 +559,10 @@ def run_unit(ctx: C.Ctx):
                 mm[str(cid)] = it
                 cid += 1
             gs.append((ab, cs))
-        scripts.append(build_script(gs))
+        if len(scripts) % 2 == 1:          # every other sketch under layout noise
+            scripts.append(build_script(gs, noise=nz))
+        else:
+            scripts.append(build_script(gs))
         meta.append(mm)
     res = fw_run_scripts(scripts)
     bstat = {"sketches": len(scripts), "cases_run": 0, "behaviour_agree": 0, "oracle_checked": 0, "oracle_skipped_not_small": 0,
@@ -588,6 +608,7 @@ def run_unit(ctx: C.Ctx):
                 bstat["outside_guard_run"] += 1
             pysem_cases.append((src, py_env(env_of(*ab))))
     dist["firmware"] = bstat
+    dist["layout_noise"] = dict(nz.stats)
 
     # ---------------- expressions the model says do not compile: g++ must agree (a few, one sketch each)
     stuck = [it for it in items if it[3]["tr"][0] == "ok" and it[3]["c"][0] == "stuck" and it[3]["py"][0] == "ok"]
